@@ -33,6 +33,8 @@ def check(repo, col, tier):
     col.rule("R-C08-space", "index space of the subscript == position space of the array (per key class)", 12)
     col.rule("R-C08-order", "clamps are applied after the updates they override", 4)
     col.rule("R-C08-time", "padding / truncation / transposition of externals", 6)
+    col.rule("R-C08-inputs", "stimulus, voltage clamp and state clamps are applied exactly when the inputs have them", 3)
+    input_guards(repo, col, "R-C08-inputs")
     col.rule("R-C08-recs", "recs = concat([init, recordings[:n]]).T", 3)
     col.rule("R-C08-sibling", "stimulate/clamp and their data_ twins agree", 6)
     col.rule("R-C08-charge", "a stimulus of I nA adds I*dt of charge to its target compartment, whatever its geometry", 10)
@@ -436,6 +438,91 @@ def _order(repo, col):
     col.check(len(rets) == 1 and unparse(rets[0].value) == "u" and body.index(rets[0]) > i_vclamp, R, fi,
               "the clamped dictionary is what is returned", "returns u after the clamps",
               "step does not return the clamped state dictionary", node=rets[0] if rets else fi.node)
+
+
+def input_guards(repo, col, R):
+    """Which inputs are applied when, in Module.step -- decided on the polarity of the conditions under which each statement runs:
+    the stimulus enters iff there is an entry `i`; the voltage clamp runs iff there is an entry `v`; the generic clamp runs for
+    every OTHER key (not `i`: that is a current, not a state; not `v`: the voltage step would overwrite it)."""
+    fi = repo.method("Module", "step")
+    ex = idx.expander(repo, fi)
+
+    def has(g, key):
+        """True / False: the guard says `key` is / is not among the inputs; None: says nothing about it"""
+        neg = False
+        while g.op == "not" or (g.op == "unary" and g.name == "Not"):
+            neg, g = not neg, g.args[0]
+        if g.op == "cmp" and g.name in ("in", "not in") and len(g.args) == 2 and g.args[0].op == "const" and g.args[0].name == key and \
+                T.find(g.args[1], lambda x: x.op == "param" and x.name == "externals") is not None:
+            v = g.name == "in"
+            return (not v) if neg else v
+        return None
+
+    def key_excluded(g):
+        """set of keys for which the guard holds is the complement of the returned set (loop key not in [...]); None otherwise"""
+        neg = False
+        while g.op == "not" or (g.op == "unary" and g.name == "Not"):
+            neg, g = not neg, g.args[0]
+        if g.op == "cmp" and g.name in ("in", "not in") and len(g.args) == 2 and g.args[1].op in ("list", "tuple", "set") and \
+                all(x.op == "const" for x in g.args[1].args) and g.args[0].op in ("elem", "item"):
+            ks = frozenset(x.name for x in g.args[1].args)
+            excl = (g.name == "not in") != neg
+            return ks if excl else ("only", ks)
+        if g.op == "bool" and g.name == "And" and not neg:
+            out = set()
+            for a_ in g.args:
+                if a_.op == "cmp" and a_.name == "!=" and any(x.op == "const" for x in a_.args):
+                    out.add(next(x.name for x in a_.args if x.op == "const"))
+                else:
+                    return None
+            return frozenset(out)
+        return None
+    # (a) stimulus
+    conv = [c for c in ex.calls if isinstance(c.func, ast.Attribute) and c.func.attr == "_get_external_input"]
+    if not conv:
+        raise AnalysisError("Module.step no longer converts the stimulus with _get_external_input")
+    g_ = [has(g, "i") for g in ex.stmt_guards.get(id(_stmt_of(fi.node, conv[0])), ())]
+    g_ = [x for x in g_ if x is not None]
+    col.check(g_ == [True], R, fi, "the stimulus enters the step iff the inputs have an entry `i`", "if 'i' in externals",
+              f"the stimulus conversion runs under {'the NEGATED test' if g_ == [False] else 'no test'} of `'i' in externals`: "
+              f"{'a present stimulus is ignored (and an absent one raises KeyError)' if g_ == [False] else 'modules without a stimulus raise KeyError'}",
+              node=conv[0])
+    # (b) clamps
+    n_v = n_gen = 0
+    for s_ in ex.stores:
+        if s_.kind != "sub" or s_.value is None:
+            continue
+        sc = s_.value if (s_.value.op == "mcall" and s_.value.name == "set" and T.find(s_.value, lambda x: x.op == "param" and x.name == "externals") is not None) else None
+        if sc is None:
+            continue
+        if s_.key.op == "const" and s_.key.name == "v":
+            n_v += 1
+            g_ = [x for x in (has(g, "v") for g in s_.guards) if x is not None]
+            col.check(g_ == [True], R, fi, "the voltage clamp runs iff the inputs have an entry `v`", "if 'v' in externals",
+                      f"the voltage clamp runs under {'the NEGATED test' if g_ == [False] else 'no test'} of `'v' in externals`: a voltage clamp "
+                      f"that was set is ignored", node=s_.node)
+        elif s_.key.op in ("elem", "item"):
+            n_gen += 1
+            conds = [g for g in s_.guards if g.op != "loop"]
+            for g in s_.guards:   # a loop over a filtered comprehension: `for key in [k for k in externals if k not in (...)]`
+                if g.op == "loop" and g.args and g.args[0].op == "comp" and len(g.args[0].args) > 2:
+                    conds += list(g.args[0].args[2:])
+            ex_ = [x for x in (key_excluded(g) for g in conds) if x is not None]
+            ok = len(ex_) == 1 and isinstance(ex_[0], frozenset) and ex_[0] == frozenset({"i", "v"})
+            col.check(ok, R, fi, "the generic clamp runs for every input except `i` and `v`", "if key not in ['i', 'v']",
+                      f"the generic clamp `{unparse(s_.node)[:50]}` runs for {('only ' + str(sorted(ex_[0][1]))) if ex_ and not isinstance(ex_[0], frozenset) else ('all keys except ' + str(sorted(ex_[0])) if ex_ else 'every key')}: "
+                      f"clamps of channel / synapse states are skipped, or the stimulus current is written into a state", node=s_.node)
+    if n_v < 1 or n_gen < 1:
+        raise AnalysisError(f"Module.step: clamp stores not recognised (voltage {n_v}, generic {n_gen})")
+
+
+def _stmt_of(fn, node):
+    """the innermost simple statement of fn that contains node"""
+    best = None
+    for st in ast.walk(fn):
+        if isinstance(st, (ast.Assign, ast.AugAssign, ast.Expr, ast.Return, ast.AnnAssign)) and any(x is node for x in ast.walk(st)):
+            best = st
+    return best
 
 
 # --------------------------------------------------------------------------------------
